@@ -463,6 +463,7 @@ func vEnvAcceptTempErr()                        {}
 func vEnvListeners() int                        { return -1 }
 func vEnvListenerOpen() int                     { return -1 }
 func vEnvListenAddr() string                    { return "" }
+func vLoopInit(fn, variable string, v int)      {}
 func vConnLayer(x interface{}) string           { return "" }
 func vTLSConfigOf(x interface{}) *tls.Config    { return nil }
 func vEvents(kind, arg string) int              { return -1 }
